@@ -39,7 +39,9 @@ func (m *MCond) setKw(v Val) {
 	case "s":
 		m.Kw = v.S
 	case "strer":
-		if v.S != "" {
+		// a stringer is consulted unless its value is the zero value of its
+		// type; whatever text it gives (the empty text included) is stored
+		if v.S != "" || v.D == 1 {
 			m.Kw = v.S
 		}
 	}
